@@ -160,10 +160,6 @@ def build_template(c):
             kws = [{"total_count": k - 1} for k in (c["kw"] or [ncat] * n)]
             doms = {v: ("d", kws[v]["total_count"] + 1) for v in range(n)}
         if fam == "hmm":
-            if kws is not None and c["kw"] is not None:
-                # per-variable kwargs are exercised by C20; here every variable gets the same arguments
-                kws = [kws[0]] * n
-                doms = {v: doms[0] for v in range(n)}
             sc = pgms.hmm(c["ordering"], input_layer=inp, num_latent_states=units, input_layer_kwargs=kws)
         else:
             sc = pgms.fully_factorized(n, input_layer=inp, input_layer_kwargs=kws)
